@@ -1,14 +1,42 @@
 def _extra(stats, cov):
-    # translation validation: programs = plans of the real planner validated by the proved-sound plan_ok
-    return dict(programs=stats.get('plans_produced', 0),
-                disagreements_checked=stats.get('plans_validated', 0),
-                distinct_plans_validated=stats.get('plans_validated', 0),
-                plans_rejected=stats.get('plans_validated', 0) - stats.get('plans_accepted', 0))
+    # translation validation: every plan the real planner produced in this run was validated by the
+    # extracted plan_ok (proved sound: C02_checker_sound); identical (graph, plan pair) outputs of the
+    # 6-commit sweep are validated once and counted with their multiplicity in plans_produced
+    produced = stats.get('plans_produced', 0)
+    validated = stats.get('plans_validated', 0)
+    accepted = stats.get('plans_accepted', 0)
+    return dict(programs=produced, disagreements_checked=validated,
+                plans_produced=produced, distinct_plans_validated=validated, plans_rejected=validated - accepted)
 
 
 CONFIG = dict(
     level='translation_validation',
     streams=[dict(harness='c02', driver='c02', shrink_field='edges')],
-    rule='stub',
+    rule='one case = one commit graph (n commits, parent edges in ParentHashes order incl. duplicate, redundant and dangling '
+         'edges) + one assignment of hashes (ranks: byte order of the hashes, drives every tie-break) + one slice order; the real '
+         'prepareRunPlan(commits, 0) plans it twice (second time on the reversed slice; Go map order varies) and each plan is '
+         'validated by the extracted plan_ok. Generators: every DAG (connected and disconnected) on <=5 commits x every hash '
+         'order; thorough: every connected DAG on 6 commits x every 6th hash order (flag -full of the harness: all 720); samples '
+         'of 6/7-commit DAGs; random histories up to 14 and up to 40 commits (several roots, octopus merges, criss-cross, '
+         'duplicate/redundant edges, disconnected components, parents outside the set). Non-trivial = some commit has two '
+         'distinct parents; distinct = distinct (n, ranks, order, edges).',
+    exhaustive_note='all DAGs on <=5 topologically numbered commits (connected: 88 299 graph x hash-order cases, disconnected: '
+                    '36 170) x all hash orders; thorough adds all connected DAGs on 6 commits x every sixth of the 720 hash orders',
+    assumptions=['commits are numbered so that parents have smaller numbers (every finite DAG has such a numbering; the '
+                 'validator checks it) and the graph given to the validator is the history restricted to the analysed commit set',
+                 'prepareRunPlan reads only Hash and ParentHashes of a commit (fabricated commits are used)',
+                 'no Gallina mirror of the planner: C02 is decided per produced plan (translation validation), not by a proof '
+                 'about buildDag/mergeDag/collapseFastForwards/generatePlan themselves'],
+    trusted_base=['the abstract executor coq/theories/Plan/Exec.v as the meaning of a plan (hand-written from the branch '
+                  'bookkeeping of Pipeline.Run; Run itself is not executed by this check)',
+                  'the declarative specification coq/theories/Plan/Spec.v + Graph.v (C02_spec) as the reading of the property text'],
+    level_text='translation validation: every plan produced by the real planner on the explored graphs is accepted by a '
+               'validator extracted from Coq and proved sound against the declarative C02 specification for all graphs and plans',
+    level_note='Proved in Coq (no axioms): plan_ok g p = true -> C02_spec g p for every graph and plan. Not proved: that the Go '
+               'planner always produces an accepted plan - that is checked per plan (exhaustively for <=5 commits, every 6th '
+               'hash order for 6 commits, randomly up to 40 commits). Trusted: Coq kernel, extraction, the OCaml driver, the Go '
+               'harness, and Exec.v/Spec.v as the formal reading of Pipeline.Run and of the property.',
+    technique='Coq-verified plan validator (translation validation) run on the outputs of the real planner',
     extra_coverage=_extra,
+    search_seconds=60,
 )
